@@ -144,6 +144,18 @@ def unit_literals(g, rounds=10):
     rest = [z3.simplify(z3.substitute(f, *sub)) for f in nxt] if sub else nxt
     if not new:
       break
+  # the same comparison written the other way round (a >= b  <->  b <= a): z3 does not orient atoms uniquely
+  for atom, val in list(lits.values()):
+    if not (z3.is_app(atom) and atom.num_args() == 2):
+      continue
+    x, y = atom.arg(0), atom.arg(1)
+    if not (z3.is_arith(x) and z3.is_arith(y)):
+      continue
+    mk = {">=": lambda: z3.ArithRef(z3.Z3_mk_le(x.ctx_ref(), y.as_ast(), x.as_ast()), x.ctx), "<=": lambda: z3.ArithRef(z3.Z3_mk_ge(x.ctx_ref(), y.as_ast(), x.as_ast()), x.ctx), ">": lambda: z3.ArithRef(z3.Z3_mk_lt(x.ctx_ref(), y.as_ast(), x.as_ast()), x.ctx), "<": lambda: z3.ArithRef(z3.Z3_mk_gt(x.ctx_ref(), y.as_ast(), x.as_ast()), x.ctx)}.get(atom.decl().name())
+    if mk is not None:
+      alt = z3.BoolRef(mk().as_ast(), x.ctx)
+      if alt.get_id() not in lits:
+        lits[alt.get_id()] = (alt, val)
   return list(lits.values())
 
 
@@ -187,8 +199,29 @@ def _portfolio(ctx, bg, name, goal, guard, budget):
   kind = re.sub(r"\[.*\]$", "", re.sub(r"^row\d+/", "", name))
   if kind in _BEST:
     plans.sort(key=lambda p: 0 if (p[0], bool(p[1])) == _BEST[kind] else 1)
+  # strategy 0: maximal nonlinear products abstracted by fresh reals (syntactically identical products share a symbol).
+  # An over-approximation: `unsat` is a proof of the original query; anything else is ignored.
+  try:
+    fs = [core.zbool(goal), core.zbool(guard)] + [core.zbool(b) for b in bg]
+    pg = purify_products(fs)
+    s0 = _mk_session(ctx, pg[2:], "smt", max(1000, int(budget * 0.1)))
+    r0 = s0.prove(name, pg[0], pg[1])
+    if r0.status == "unsat":
+      r0.strategy = "products-abstracted"
+      return r0, s0
+  except z3.Z3Exception:
+    pass
   r = sess = None
-  sampled = False
+  sampled = True
+  # counterexample search by concretisation: fix the float inputs (array reads) to sample values, which makes the query
+  # (almost) linear.  Only a `sat` answer is used - it is a genuine model of the original query (constraints were added).
+  for seed in range(3):
+    fix = sample_inputs([core.zbool(goal), core.zbool(guard)] + [core.zbool(b) for b in bg], seed)
+    s2 = _mk_session(ctx, list(bg) + fix, "smt", max(1000, int(budget * 0.1)))
+    r2 = s2.prove(name, goal, guard)
+    if r2.status == "sat":
+      r2.strategy = "sampled-inputs"
+      return r2, s2
   for strat, extra, frac in plans:
     sess = _mk_session(ctx, list(bg) + extra, strat, max(1000, int(budget * frac)))
     r = sess.prove(name, goal, guard)
@@ -209,6 +242,25 @@ def _portfolio(ctx, bg, name, goal, guard, budget):
           r2.strategy = "sampled-inputs"
           return r2, s2
   return r, sess
+
+
+def purify_products(fs):
+  """each maximal product of >= 2 non-numeral factors replaced by a fresh real (same product term -> same symbol)"""
+  cache, sub = {}, []
+
+  def walk(t):
+    if t.get_id() in cache:
+      return
+    cache[t.get_id()] = True
+    if z3.is_app_of(t, z3.Z3_OP_MUL) and len([c for c in t.children() if not z3.is_rational_value(c)]) >= 2:
+      sub.append((t, z3.Real(f"prod!{len(sub)}")))
+      return  # maximal: do not descend
+    for c in t.children():
+      walk(c)
+
+  for f in fs:
+    walk(f)
+  return [z3.substitute(f, *sub) if sub else f for f in fs]
 
 
 def sample_inputs(fs, seed):
